@@ -303,3 +303,49 @@ PROPS["C19"]["text"] = (PROV_TEXT + "Together with the Lean-checked fact that no
                         "results depend only on argument values. Proved at the level of the SSA model; what is not a theorem: that mutating a returned value cannot influence later "
                         "calls is the conjunction of freshness and no-hidden-state, observed additionally by the mutate-and-recall correspondence.")
 PROPS["C19"]["technique"] = "Lean 4 soundness theorem of a pointer-provenance checker (fresh results) + kernel-evaluated verdicts on regenerated SSA + mutate-and-recall correspondence"
+
+# The Lean model of every operation is a pure function of the argument values.  That the code is one too - no package-level
+# variable is written outside init and the two Once closures - is the Lean-checked SSA fact Structural.Globals; it is part of
+# every property's tie (a hidden scratch buffer or cache makes results depend on history or on concurrent callers).
+for _pid, _c in PROPS.items():
+    if "EdVerif.Props.Structural.Globals" not in _c["modules"]:
+        _c["modules"] = list(_c["modules"]) + ["EdVerif.Props.Structural.Globals"]
+    _c["needs_gen"] = sorted(set(list(_c.get("needs_gen", DEFAULT_NEEDS_GEN)) + ["ssa"]))
+
+# C14: error-path soundness (EdVerif/Ssa/ErrSound); C18/C19: no-hidden-state soundness (EdVerif/Ssa/GlobSound)
+PROPS["C14"]["modules"] = PROPS["C14"]["modules"] + ["EdVerif.Props.Structural.ErrSound"]
+PROPS["C14"]["text"] = (PROPS["C14"]["text"] + " Semantic theorem (EdVerif/Ssa/ErrSound, ~3500 lines, generic, proved once against the small-step SSA semantics; instantiated on the "
+                        "regenerated SSA in Props/Structural/ErrSound.lean): a fallible setter that returns either returns nil - and then EVERY block of memory that existed before "
+                        "the call (receiver, input incl. spare capacity, everything else except package-level variables) has its original content - or returns exactly its receiver. "
+                        "For Point.SetBytes / SetExtendedCoordinates the same is additionally proved on the definitions regenerated by T5 (Props/Regenerated.lean).")
+PROPS["C14"]["technique"] = "Lean 4 soundness theorem of the error-path checker for an SSA semantics + kernel-evaluated verdict on regenerated SSA + rfl ties of regenerated setters + model theorem + correspondence"
+for _pid in ("C18", "C19"):
+    PROPS[_pid]["modules"] = PROPS[_pid]["modules"] + ["EdVerif.Props.Structural.GlobSound"]
+PROPS["C18"]["text"] = (PROPS["C18"]["text"] + " (4) Semantic theorem (EdVerif/Ssa/GlobSound, generic; instantiated in Props/Structural/GlobSound.lean): at every point of the "
+                        "sequential execution of an exported function no package-level variable other than the two once-tables changes - so the only shared mutable state is the "
+                        "pair of tables behind sync.Once, which is what the abstract protocol theorem is about.")
+PROPS["C19"]["text"] = (PROPS["C19"]["text"] + " The no-hidden-state half is now also a semantic theorem (C18_package_state_readonly).")
+
+# the field's high layer (Negate, Absolute, Equal, SqrtRatio, Invert, Pow22523) is regenerated by T5 as well
+for _pid in ("C09", "C10"):
+    if "EdVerif.Gen.FormulaTies" not in PROPS[_pid]["modules"]:
+        PROPS[_pid]["modules"] = list(PROPS[_pid]["modules"]) + ["EdVerif.Gen.FormulaTies"]
+    PROPS[_pid]["needs_gen"] = sorted(set(list(PROPS[_pid].get("needs_gen", DEFAULT_NEEDS_GEN)) + ["formulas"]))
+    if FORMULA_NOTE not in PROPS[_pid].get("trusted_extra", []):
+        PROPS[_pid]["trusted_extra"] = list(PROPS[_pid].get("trusted_extra", [])) + [FORMULA_NOTE]
+
+PROPS["C15"]["modules"] = PROPS["C15"]["modules"] + ["EdVerif.Props.Structural.GuardSound"]
+PROPS["C15"]["text"] = (PROPS["C15"]["text"] + " Semantic theorem (EdVerif/Ssa/GuardSound, ~2400 lines; generic part proved once, the specification of checkInitialized by symbolic "
+                        "execution of its regenerated SSA incl. its loop; instantiated in Props/Structural/GuardSound.lean): every guarded reader called with an uninitialized Point "
+                        "(x and y limbs all zero) in a guarded position, or with a points slice containing one, never returns normally - on any heap, for any other arguments and any aliasing.")
+PROPS["C15"]["technique"] = "Lean 4 soundness theorem of the guard checker for an SSA semantics + symbolic execution of checkInitialized + kernel-evaluated verdict on regenerated SSA + model theorem + correspondence"
+
+# tie_* theorems: every field kernel translated by T1 equals the execution of its SSA (T2 + Sem.lean), for all limb values, arbitrary heaps
+# and every aliasing pattern of the pointer arguments (EdVerif/Ssa/Tie, proved by symbolic execution of the interpreter)
+TIE_NOTE = ("for the 25 field kernels of Gen/FieldKernels.lean the shallow translator T1 is no longer trusted: EdVerif/Ssa/Tie proves that executing the kernel's regenerated "
+            "SSA in the semantics EdVerif/Ssa/Sem.lean computes exactly the T1 definition, for all limb values, on arbitrary heaps and under every aliasing of the pointer "
+            "arguments (the trusted part is then the SSA printer + the semantics, both validated against the real code on every run by ssarun)")
+for _pid in ("C09", "C10", "C11", "C20"):
+    PROPS[_pid]["modules"] = list(PROPS[_pid]["modules"]) + ["EdVerif.Ssa.Tie.Main"]
+    PROPS[_pid]["needs_gen"] = sorted(set(list(PROPS[_pid].get("needs_gen", DEFAULT_NEEDS_GEN)) + ["ssa", "kernels"]))
+    PROPS[_pid]["trusted_extra"] = list(PROPS[_pid].get("trusted_extra", [])) + [TIE_NOTE]
